@@ -21,9 +21,16 @@
 package c11
 
 import (
+	"crypto/ecdsa"
+	"crypto/elliptic"
+	crand "crypto/rand"
+	"crypto/x509"
+	"crypto/x509/pkix"
 	"encoding/json"
+	"encoding/pem"
 	"fmt"
 	"hash/fnv"
+	"math/big"
 	"math/rand"
 	"os"
 	"path/filepath"
@@ -33,6 +40,7 @@ import (
 	"strconv"
 	"strings"
 	"sync"
+	"sync/atomic"
 	"syscall"
 	"testing"
 	"time"
@@ -88,13 +96,14 @@ type sgCase struct {
 	Text  string `json:"text,omitempty"`
 	Start bool   `json:"start,omitempty"`
 	// a case of SetupPairs.tla: two directives of one site sharing a log file
-	Pair bool   `json:"pair,omitempty"`
-	D1   string `json:"d1,omitempty"`
-	K1   string `json:"k1,omitempty"`
-	V1   string `json:"v1,omitempty"`
-	D2   string `json:"d2,omitempty"`
-	K2   string `json:"k2,omitempty"`
-	V2   string `json:"v2,omitempty"`
+	forceUR string // not from the model: complete the head of a proxy block with this upstream (see TestC11)
+	Pair    bool   `json:"pair,omitempty"`
+	D1      string `json:"d1,omitempty"`
+	K1      string `json:"k1,omitempty"`
+	V1      string `json:"v1,omitempty"`
+	D2      string `json:"d2,omitempty"`
+	K2      string `json:"k2,omitempty"`
+	V2      string `json:"v2,omitempty"`
 }
 
 // renderPair: both directives log to one writable file in the scratch directory.
@@ -303,6 +312,11 @@ var dict = map[string][]string{
 // a path-like spelling that is a file-system location outside the scratch directory must never
 // reach a directive that opens files at start-up (log, errors): "/api" style URL paths are only
 // used where the first argument is a request path; see spellFor.
+// spellings a keyword's argument needs to get past the keyword's first check (a readable PEM file ...)
+var kwSpell = map[string]map[string][]string{
+	"proxy": {"ca_certificates": {"@SCRATCH@/cert.pem"}, "tls_client": {"@SCRATCH@/cert.pem", "@SCRATCH@/key.pem"}},
+}
+
 func spellFor(d string, cls string, pos int, rnd *rand.Rand) string {
 	if cls == "kw" {
 		ks := vocab[d]
@@ -349,8 +363,12 @@ func render(c *sgCase, rnd *rand.Rand) (text, name string) {
 	}
 	n.WriteString(c.D)
 	extra := 0
+	curHead := ""
 	tok := func(cls string, pos int) {
 		s := spellFor(c.D, cls, pos, rnd)
+		if ks := kwSpell[c.D][curHead]; cls == "pa" && len(ks) > 0 && rnd.Intn(2) == 0 {
+			s = ks[(pos-1)%len(ks)]
+		}
 		if cls == "ob" {
 			extra++
 		}
@@ -362,6 +380,7 @@ func render(c *sgCase, rnd *rand.Rand) (text, name string) {
 		}
 	}
 	head := func(h string) {
+		curHead = h
 		switch h {
 		case "wd", "in", "em":
 			s := spellFor(c.D, h, 0, rnd)
@@ -374,6 +393,14 @@ func render(c *sgCase, rnd *rand.Rand) (text, name string) {
 	}
 	for i, cls := range c.T {
 		tok(cls, i)
+	}
+	if c.B && len(c.T) == 1 && c.forceUR != "" {
+		b.WriteString(" " + c.forceUR)
+		n.WriteString(" <ur>")
+	} else if c.B && len(c.T) == 1 && (c.D == "proxy" || c.D == "fastcgi") && rnd.Intn(2) == 0 {
+		// a block of these two is only reached in earnest when the head names an upstream: in half of
+		// the one-argument block cases the harness completes the head with one (shown in the name)
+		tok("ur", 1)
 	}
 	if c.B {
 		b.WriteString(" {\n")
@@ -574,6 +601,30 @@ func judge(o *outcome, status string) (clause, what string) {
 	return "", ""
 }
 
+// writeKeyPair writes a self-signed certificate and its key as PEM files (what `tls`, `proxy
+// ca_certificates` and `proxy tls_client` take as file arguments).
+func writeKeyPair(certFile, keyFile string) error {
+	key, err := ecdsa.GenerateKey(elliptic.P256(), crand.Reader)
+	if err != nil {
+		return err
+	}
+	tpl := &x509.Certificate{SerialNumber: big.NewInt(11), Subject: pkix.Name{CommonName: "c11.test"}, DNSNames: []string{"c11.test"},
+		NotBefore: time.Now().Add(-time.Hour), NotAfter: time.Now().Add(240 * time.Hour), IsCA: true, BasicConstraintsValid: true,
+		KeyUsage: x509.KeyUsageDigitalSignature | x509.KeyUsageCertSign}
+	der, err := x509.CreateCertificate(crand.Reader, tpl, tpl, &key.PublicKey, key)
+	if err != nil {
+		return err
+	}
+	kb, err := x509.MarshalECPrivateKey(key)
+	if err != nil {
+		return err
+	}
+	if err := os.WriteFile(certFile, pem.EncodeToMemory(&pem.Block{Type: "CERTIFICATE", Bytes: der}), 0o644); err != nil {
+		return err
+	}
+	return os.WriteFile(keyFile, pem.EncodeToMemory(&pem.Block{Type: "EC PRIVATE KEY", Bytes: kb}), 0o600)
+}
+
 func h32(s string) uint32 { h := fnv.New32a(); h.Write([]byte(s)); return h.Sum32() }
 
 func TestC11(t *testing.T) {
@@ -593,6 +644,10 @@ func TestC11(t *testing.T) {
 	}
 	os.WriteFile(filepath.Join(scratch, "exist.txt"), []byte("hello\n"), 0o644)
 	os.WriteFile(filepath.Join(scratch, "htpasswd"), []byte("bob:{SHA}W6ph5Mm5Pz8GgiULbPgzG37mj9g=\n"), 0o644)
+	if err := writeKeyPair(filepath.Join(scratch, "cert.pem"), filepath.Join(scratch, "key.pem")); err != nil {
+		res.Infra = "cannot make the certificate files of the scratch directory: " + err.Error()
+		return
+	}
 
 	pool := hx.NewProcPool(nWorkers, deadline(), childTest, "VERIF_C11_SCRATCH="+scratch)
 	pool.MaxJobs = 4000
@@ -674,6 +729,19 @@ func TestC11(t *testing.T) {
 		return
 	}
 
+	// the one-argument block cases of proxy once more with the head completed by every spelling of
+	// an upstream (the block's lines then meet every kind of transport)
+	nModel := len(cases)
+	for i := 0; i < nModel; i++ {
+		if c := cases[i]; c.D == "proxy" && c.B && len(c.T) == 1 && !c.Pair {
+			for _, u := range spell["ur"] {
+				cc := c
+				cc.forceUR = u
+				cases = append(cases, cc)
+			}
+		}
+	}
+	res.AddExtra("cases_added_proxy_heads_completed", len(cases)-nModel)
 	seed := hx.Seed()
 	selftest := hx.SelfTest()
 	selftestHit := false
@@ -681,12 +749,16 @@ func TestC11(t *testing.T) {
 	perDir := map[string][2]int{}
 	startErrSamples := map[string]string{} // accepted by -validate, refused later by a real start (start-up callbacks, listeners): not a directive matter
 	var wg sync.WaitGroup
+	var slow int32 // verdicts that cost a deadline each (hangs, dead workers)
 	ch := make(chan int, 64)
 	for w := 0; w < nWorkers; w++ {
 		wg.Add(1)
 		go func() {
 			defer wg.Done()
 			for i := range ch {
+				if atomic.LoadInt32(&slow) > 12 {
+					continue
+				}
 				c := &cases[i]
 				rnd := rand.New(rand.NewSource(seed*2654435761 + int64(i)))
 				text, name := render(c, rnd)
@@ -758,6 +830,13 @@ func TestC11(t *testing.T) {
 					}
 				}
 				if cl, _ := judge(o, st); cl != "" {
+					if cl == "no-return" || cl == "crash" {
+						// each of these costs a deadline (twice, with the reproduction): with a
+						// dozen of them the verdict is settled, the rest of the cases is skipped
+						if atomic.AddInt32(&slow, 1) > 12 {
+							continue
+						}
+					}
 					report(c, name, j)
 				}
 			}
@@ -769,6 +848,9 @@ func TestC11(t *testing.T) {
 	close(ch)
 	wg.Wait()
 
+	if slow > 12 {
+		res.AddExtra("bailed_out", "more than a dozen hangs / dead workers: the remaining cases were skipped")
+	}
 	res.AddExtra("validate_accepted", cnt.vOK)
 	res.AddExtra("validate_rejected", cnt.vErr)
 	res.AddExtra("real_starts", cnt.started)
